@@ -618,6 +618,11 @@ class Gen:
             Rp = r.choice([2, 5, 20, max(2, min(R, 1000))])
             pat = self.user_paths([self.shape(r.range(-Rp, Rp), r.range(-Rp, Rp), Rp, r.choice(['star', 'tri', 'rect']))], scale, p)
             n = r.range(2, 6)
+            if r.chance(1, 4):      # degenerate brushes and paths: a line segment, a single point, nothing
+                pat = [pat[0][:r.choice([2, 2, 2, 1, 0])]]
+                tag += ' short-pattern'
+            if r.chance(1, 10):
+                n = r.choice([0, 1])
             pth = self.user_paths([[(float(cx + r.range(-R, R)) + self.frac(), float(cy + r.range(-R, R)) + self.frac()) for _ in range(n)]], scale, p)
             return Case(entry, p, [r.below(2)], [pat, pth], None, tag)
         if entry == 'trim':
